@@ -114,7 +114,7 @@ let () =
                    st := st';
                    Printf.printf "%s %d CLOSE %s\n" id k (match out with OUnregistered _ -> "ok" | _ -> "rejected")
                  | None -> Printf.printf "%s %d CLOSE invalid\n" id k)
-              | ["READ"] -> Printf.printf "%s %d READ %s\n" id k (string_of_n !st.st_sm)
+              | ["READ"] -> Printf.printf "%s %d READ %s T %s\n" id k (string_of_n !st.st_sm) (show_table !st.st_tab)
               | ["GUARD"] -> Printf.printf "%s %d GUARD getsession=panic propose=panic noop=ok\n" id k
               | [("HOST" | "SNAPSHOT" | "RESTARTHOST" | "XFER") as op; _] -> Printf.printf "%s %d %s ok\n" id k op
               | x :: _ -> Printf.printf "%s %d ? %s\n" id k x
@@ -226,6 +226,8 @@ let () =
                | Some (((sv, smb) as sn), st') ->
                  st := st'; image := Some sn; since := [];
                  pend := Some (Printf.sprintf "%s %d S %s sm=%s\n" id k (show_sessions (fst sv) (snd sv)) (string_of_n (le_dec smb)), n))
+            | ["OLD"] ->
+              Printf.printf "%s %d OLD %s\n" id k (if !image = None then "none" else "refused")
             | ["RESTART"] ->
               let base = (match !image with Some sn -> acc_restore sn | None -> Some (acc_init cap)) in
               (match base with
